@@ -16,7 +16,7 @@ import (
 // there is recorded as a halt with its stack.
 func TestC37(t *testing.T) {
 	c := ev.For("C37")
-	c.SetRule("rapid state machine over the full action alphabet (stake/modify/move/unstake/freeze, dualstaking and validator delegations, slashes, subscription buy/upgrade/advance/auto-renew, projects/keys/policies, plan add/modify/delete proposals, IPRPC data/fund, relay payments with QoS/excellence/unresponsive reports, block/epoch/hour/month advances) on a generated world; oracle: no panic escapes End/BeginBlock; non-trivial = history crossed >=1 month boundary with >=1 accepted relay payment; distinct = distinct histories")
+	c.SetRule("rapid state machine over the full action alphabet (stake/modify/move/unstake/freeze, dualstaking and validator delegations, slashes, subscription buy/upgrade/advance/auto-renew, projects/keys/policies, plan add/modify/delete proposals, IPRPC data/fund, relay payments with QoS/excellence/unresponsive reports, block/epoch/hour/month advances) on a generated world, 1 case in 4 after a directed preamble with drawn parameters (a subscription whose auto-renewal fails for lack of funds onto a dearer plan version that another subscription holds, then a further plan version or the plan's deletion, then the other subscription's expiry) and 1 case in 4 after another one (a provider vault, which may also delegate to another provider, lowers its self stake to just above the minimum self delegation, its validators are slashed 1-3 times, the stake goes up again, relay payments, the vault unbonds everything from its validators, two month ends); oracle: no panic escapes End/BeginBlock; non-trivial = history crossed >=1 month boundary with >=1 accepted relay payment; distinct = distinct histories")
 	c.Assume("transactions run atomically (cache context + bank snapshot) as under BaseApp; a panic inside a transaction is a failed transaction, not a halt",
 		"bank/account keepers are the repository's mocks")
 	rapid.Check(t, func(rt *rapid.T) {
@@ -99,6 +99,15 @@ func TestC37(t *testing.T) {
 				rt.Fatalf("%s", ev.Violation("C37", "chain halted: %s\nhistory (tail):\n  %s", w.C.Halt, histString(w, 60)))
 			}
 		}
+		// directed preamble, 1 case in 4 (see c37_scenarios_test.go); the random history continues from its end state
+		scenario := rapid.IntRange(0, 3).Draw(rt, "failedRenewalPreamble") == 0
+		if scenario {
+			c37FailedRenewal(rt, w)
+		}
+		slashedVault := rapid.IntRange(0, 3).Draw(rt, "slashedVaultPreamble") == 0
+		if slashedVault {
+			c37SlashedVault(rt, w)
+		}
 		rt.Repeat(acts)
 		months, relays := histClasses(w)
 		nt := months >= 1 && relays >= 1
@@ -108,6 +117,12 @@ func TestC37(t *testing.T) {
 		}
 		if relays >= 1 {
 			classes = append(classes, "accepted-relay")
+		}
+		if scenario {
+			classes = append(classes, "preamble:failed-renewal-then-plan-change-then-expiry")
+		}
+		if slashedVault {
+			classes = append(classes, "preamble:vault-slashed-at-minimum-self-delegation-then-restake-unbond-payout")
 		}
 		c.AddExtra("blocks", w.C.Blocks)
 		c.AddExtra("tx_ok", w.C.TxOK)
